@@ -9,20 +9,21 @@ open SecsModel SecsModel.Spec.E30Comm SecsModel.Model.GemComm
 structure CInv (s : State) : Prop where
   t3 : s.t3Armed = true ↔ s.comm = .waitCra
   dly : s.delayArmed = true ↔ s.comm = .waitDelay
-  up : s.comm = .communicating → s.link = true
+  up : s.comm = .communicating → s.selected = true
+  sc : s.selected = true → s.connected = true
 
 theorem cinv_init : CInv init := by
   constructor <;> simp [init]
 
-theorem cinv_perform (s : State) (t : Trans) (h : CInv s) (hl : (t = .s1f14received ∨ t = .s1f13received) → s.link = true) :
+theorem cinv_perform (s : State) (t : Trans) (h : CInv s) (hl : (t = .s1f14received ∨ t = .s1f13received) → s.selected = true) :
     CInv (perform s t).1 := by
-  obtain ⟨c, l, a, b, n, m, q⟩ := s
-  obtain ⟨h3, hd, hu⟩ := h
+  obtain ⟨c, cn, l, a, b, n, m, q⟩ := s
+  obtain ⟨h3, hd, hu, hsc⟩ := h
   rw [perform_eq]
   cases c <;> cases t <;> simp_all [allowed, leaveEffects_eq, enterEffects_eq] <;> constructor <;> simp_all
 
 theorem cinv_onMessage (cfg : Cfg) (s : State) (sf f : Nat) (w : Bool) (sys : Nat) (ck : Option Nat) (h : CInv s)
-    (hl : s.link = true) : CInv (onMessage cfg s sf f w sys ck).1 := by
+    (hl : s.selected = true) : CInv (onMessage cfg s sf f w sys ck).1 := by
   unfold onMessage
   rw [dispatchRow_eq]
   split
@@ -47,21 +48,28 @@ theorem cinv_step (cfg : Cfg) (s : State) (i : Input) (h : CInv s) : CInv (step 
   cases i with
   | enable => exact cinv_perform s _ h (by simp)
   | disable => exact cinv_perform s _ h (by simp)
+  | linkConnected =>
+    simp only [step]
+    split
+    · exact h
+    · rename_i hcn
+      obtain ⟨h3, hd, hu, hsc⟩ := h
+      refine ⟨h3, hd, hu, fun _ => rfl⟩
   | linkSelected =>
     simp only [step]
     split
     · exact h
     · simp only [hooked_comm, selects, Bool.and_self, if_true]
       apply cinv_perform _ _ _ (by simp)
-      obtain ⟨h3, hd, hu⟩ := h
-      exact ⟨h3, hd, fun _ => rfl⟩
+      obtain ⟨h3, hd, hu, hsc⟩ := h
+      exact ⟨h3, hd, fun _ => rfl, fun _ => rfl⟩
   | linkLost =>
     simp only [step]
     split
     · exact h
     · simp only [hooked_disc, forwards, lossStates, Bool.true_and]
-      obtain ⟨c, l, a, b, n, m, q⟩ := s
-      obtain ⟨h3, hd, hu⟩ := h
+      obtain ⟨c, cn, l, a, b, n, m, q⟩ := s
+      obtain ⟨h3, hd, hu, hsc⟩ := h
       cases c <;> simp_all [perform_eq, allowed, leaveEffects_eq, enterEffects_eq] <;> constructor <;> simp_all
   | rx sf f w sys ck =>
     simp only [step]
@@ -74,16 +82,16 @@ theorem cinv_step (cfg : Cfg) (s : State) (i : Input) (h : CInv s) : CInv (step 
     split
     · exact h
     · rename_i ha
-      obtain ⟨c, l, a, b, n, m, q⟩ := s
-      obtain ⟨h3, hd, hu⟩ := h
+      obtain ⟨c, cn, l, a, b, n, m, q⟩ := s
+      obtain ⟨h3, hd, hu, hsc⟩ := h
       cases c <;> simp_all [perform_eq, allowed, leaveEffects_eq, enterEffects_eq] <;> constructor <;> simp_all
   | delayExpired =>
     simp only [step]
     split
     · exact h
     · rename_i ha
-      obtain ⟨c, l, a, b, n, m, q⟩ := s
-      obtain ⟨h3, hd, hu⟩ := h
+      obtain ⟨c, cn, l, a, b, n, m, q⟩ := s
+      obtain ⟨h3, hd, hu, hsc⟩ := h
       cases c <;> simp_all [perform_eq, allowed, leaveEffects_eq, enterEffects_eq] <;> constructor <;> simp_all
 
 theorem cinv_runFrom (cfg : Cfg) (is : List Input) : ∀ (s : State) (tr : List Obs), CInv s → CInv (runFrom cfg s tr is).1 := by
